@@ -585,7 +585,52 @@ fn lost_wakeups(ctx: &mut Ctx, rules: &[(String, Expr)]) {
     }
 }
 
+/// An executor that is slow in wall-clock terms: the evaluation is suspended in a user function and polled again only after `pause`.
+/// The outcome must be the one a quick executor gets (it must not depend on how much time passes between two polls).
+fn slow_executor(ctx: &mut Ctx, pause: std::time::Duration) {
+    let rules: Vec<(String, Expr)> = vec![
+        ("r0".to_string(), Expr::Vec(vec![Expr::func("s1", Expr::reff("a")), Expr::func("n1", Expr::value(2)), Expr::func("s1", Expr::reff("a"))])),
+        ("r1".to_string(), Expr::add(Expr::func("s2", Expr::value(1)), Expr::value(1))),
+    ];
+    let input = Value::Map([("a".to_string(), Value::Int(1))].into_iter().collect());
+    let w = world(&rules, &[1, 1, 1, 0]);
+    let quick = match baseline(&w, &input) {
+        Ok(b) => b,
+        Err(p) => return violation(ctx, "evaluation-panicked", p, &rules, json!(null)),
+    };
+    ctx.count();
+    w.fx.log.take();
+    let kept = &w.kept;
+    let rs = &w.fx.ruleset;
+    let slow = guard(|| {
+        let waker = crate::exec::noop_waker();
+        let mut cx = std::task::Context::from_waker(&waker);
+        let mut fut: BoxFut<'_, Result<Rendered, String>> = Box::pin(async { render(rs.evaluate_value(&input).await, kept) });
+        crate::exec::CURRENT_EVAL.with(|c| c.set(100));
+        let mut polls = 0;
+        loop {
+            polls += 1;
+            if let std::task::Poll::Ready(r) = fut.as_mut().poll(&mut cx) {
+                return (r, polls);
+            }
+            // one long pause after the first suspension, short ones afterwards
+            std::thread::sleep(if polls == 1 { pause } else { std::time::Duration::from_millis(20) });
+        }
+    });
+    let log = log_of(&w.fx.log.take(), 100);
+    ctx.hit(&format!("slow-executor:paused-{}s", pause.as_secs()));
+    match slow {
+        Ok((r, _)) if r == quick.outcomes && log == quick.log => ctx.hit("slow-executor:agrees"),
+        Ok((r, polls)) => violation(ctx, "outcome-depends-on-the-time-between-polls", format!("an evaluation that was polled again only after {} s gives a different outcome than one polled at once", pause.as_secs()), &rules, json!({"quick": format!("{:?}", quick.outcomes), "slow": format!("{r:?}"), "polls": polls})),
+        Err(p) => violation(ctx, "evaluation-panicked", p, &rules, json!({"slow_executor": true})),
+    }
+}
+
 fn run(ctx: &mut Ctx) {
+    if ctx.shard == 15 {
+        // 3 s in the quick tier, 75 s in the thorough tier (a limit of a minute is the smallest a maintainer would plausibly pick)
+        slow_executor(ctx, std::time::Duration::from_secs(ctx.tier.of(3, 75)));
+    }
     let mut rng = ctx.rng.clone();
     let _ = crate::exec::take_lost_wakeups();
     for n in [9_000usize, 20_000, 70_000, 300_000].into_iter().take(ctx.tier.of(3, 4)) {
@@ -617,6 +662,8 @@ fn finish(m: &Merged, tier: Tier) -> Finish {
     f.floors.push(floor(format!("evaluations dropped midway: {}", m.c("cancel:dropped-midway")), m.c("cancel:dropped-midway") >= tier.of(20_000, 80_000)));
     f.floors.push(floor(format!("large evaluations (>= 8000 nodes) that agreed under suspension / interleaving / drop: {} / {} / {}", m.c("large:suspended-agrees"), m.c("large:interleaved-agrees"), m.c("large:fresh-after-drop-agrees")), m.c("large:fresh-after-drop-agrees") >= 16));
     f.floors.push(floor(format!("wake-monitor checks: {}", m.c("wake-monitor:checked")), m.c("wake-monitor:checked") >= 1_000));
+    f.floors.push(floor(format!("slow-executor runs that agreed: {}", m.c("slow-executor:agrees")), m.c("slow-executor:agrees") >= 1));
+    f.extras.insert("slow_executor".into(), json!(m.prefix_map("slow-executor:")));
     f.floors.push(floor(format!("cancellation indices seen: {}", m.prefix_count("cancel:after-polls")), m.prefix_count("cancel:after-polls") >= 5));
     f.extras.insert("interleavings_by_switches".into(), json!(m.prefix_map("interleave:")));
     f.extras.insert("cancellation_points_seen".into(), json!(m.prefix_map("cancel:")));
